@@ -301,7 +301,13 @@ def forward(ctx, cfg):
     draws = list(ctx.rng_draws)
     # gains the real generator returns for the same draws (its law is the subject of C13.generate); the number of draws it consumes
     # separates the fading draws from the noise draws of the recorded run
-    hb, nf = N.eval_at(ctx, chan._generate_fading_coefficients, (B, L, torch.device("cpu")), {}, N.recorded_values(draws), partial=True)
+    try:
+        hb, nf = N.eval_at(ctx, chan._generate_fading_coefficients, (B, L, torch.device("cpu")), {}, N.recorded_values(draws), partial=True)
+    except S.EngineFault as e:
+        # forward drew its random numbers in other shapes than the generator does for (batch B, length L): the fading of the recorded
+        # run is not "one coefficient per item and coherence block"
+        ctx.ensure("fading_draws_per_block_then_noise_draws", False, note=f"{e}; shapes drawn by forward: {[tuple(t.shape) for _, _, t in draws]}, expected fading draws of shape {(B, nb)}")
+        return
     fading, noise = draws[:nf], draws[nf:]
     ok = nf >= 1 and len(noise) >= 1 and all(tuple(t.shape) == (B, nb) for _, _, t in fading)
     ctx.ensure("fading_draws_per_block_then_noise_draws", ok)
